@@ -176,7 +176,7 @@ func (g *ogen) node(d int, allowFail bool) onode {
 		g.failPct = 0 // one planted failure per program
 		return g.failing()
 	}
-	k := r.Intn(18)
+	k := r.Intn(19)
 	if d <= 0 {
 		k = r.Intn(3)
 	}
@@ -411,6 +411,13 @@ func (g *ogen) node(d int, allowFail bool) onode {
 			g.lib += "{{block " + bn + "(sa, q=1)}}({{sa}}|{{q}}){{end}}"
 			return onode{src: "{{yield " + bn + "(q=ib)}}[{{sa}}]", out: "(" + g.E("false") + "|" + g.E(g.intVals["ib"]) + ")[" + g.escape(g.strVals["sa"]) + "]", failOff: -1}
 		}
+	case 17: // isset: typed nils stored in maps are not set, whichever way they are reached
+		g.nfile++
+		name := fmt.Sprintf("/iss%d.jet", g.nfile)
+		g.p.files[name] = "{{ isset(.p) }}{{ isset(.m) }}{{ isset(.s) }}{{ isset(.i) }}{{ isset(.v) }}{{ isset(.zz) }}{{ isset(.p.A) }}{{ isset(.v, .p) }}"
+		f, t := g.E("false"), g.E("true")
+		return onode{src: fmt.Sprintf("{{include %q mn}}|{{ isset(mn.p) }}{{ isset(mn[\"m\"]) }}{{ isset(mn.v) }}{{ mn.s | isset }}", name),
+			out: f + f + f + f + t + f + f + f + "|" + f + f + t + f, failOff: -1}
 	case 12: // isset
 		return onode{src: "{{ isset(m.k) }}{{ isset(m.nokey) }}{{ isset(np) }}{{ isset(zero, e, ff) }}{{ isset(st.P.P.A) }}{{ m.nokey | isset }}", out: g.E("true") + g.E("false") + g.E("false") + g.E("true") + g.E("false") + g.E("false"), failOff: -1}
 	}
@@ -446,7 +453,7 @@ func genOracleProgram(r *h.Rand, flavor string) (*prog, *sx.Sexp) {
 	vars.Add(bind("zero", vInt(0))).Add(bind("e", vStr(""))).Add(bind("t", vBool(true))).Add(bind("ff", vBool(false))).
 		Add(bind("n", vNil())).Add(bind("np", vPtr("T1", nil))).Add(bind("nl", nilSliceI())).Add(bind("nm", nilMapI())).
 		Add(bind("el", vSliceI())).Add(bind("li", vSliceT(vInt(3), vInt(0), vInt(7)))).Add(bind("ls", vSliceT(vStr("a<"), vStr(""), vStr("b")))).
-		Add(bind("m", vMapI("k", vStr("v")))).Add(bind("mz", vMapI("k", vInt(0)))).Add(bind("me", vMapI("", vStr("x"), "k", vStr("")))).
+		Add(bind("m", vMapI("k", vStr("v")))).Add(bind("mn", vMapI("p", vPtr("T1", nil), "m", nilMapI(), "s", nilSliceI(), "i", vNil(), "v", vInt(1)))).Add(bind("mz", vMapI("k", vInt(0)))).Add(bind("me", vMapI("", vStr("x"), "k", vStr("")))).
 		Add(bind("ms", vMapT("a", vT2("na<", 1, true), "b", vT2("nb", 2, false), "c", vT2("", 0, false)))).Add(bind("st", vT1(5, "B<", vSliceI(vInt(1)), vMapI("k", vInt(1)), vPtr("T1", inner), vNil())))
 	p.vars = vars
 	p.data = vStr("c<x")
